@@ -694,11 +694,26 @@ func (g *FuncGen) trQuant(env *Env, q *EQuant) Val {
 		}
 		name := "q_" + sanitize(b.Name)
 		binders = append(binders, fmt.Sprintf("(%s %s)", name, s))
-		e2 = e2.with(b.Name, Val{T: name, S: s, GT: t})
+		bound := Val{T: name, S: s, GT: t}
+		// option absindex: a variable that indexes a slice ranges over the ABSOLUTE positions in the backing
+		// array instead (i := x - off, a bijection), so that element terms are data[x] whatever arithmetic shape
+		// the index has at the places the quantifier must be instantiated (E-matching is syntactic).
+		if g.contract != nil && g.contract.Options["absindex"] == "true" && s == c.intSort(64) && t != nil {
+			names := map[string]bool{}
+			for _, b2 := range q.Vars {
+				names[b2.Name] = true
+			}
+			if base := findIndexBase(q.Body, b.Name, names); base != nil {
+				if sv := g.tr(env, base); sv.S == SSlice {
+					bound.T = g.sub64(name, fmt.Sprintf("(s_off %s)", sv.T))
+				}
+			}
+		}
+		e2 = e2.with(b.Name, bound)
 		if t != nil && c.mathInts {
 			if ii, ok := basicIntInfo(t); ok {
 				lo, hi := intRange(ii)
-				guards = append(guards, fmt.Sprintf("(<= %s %s)", lo, name), fmt.Sprintf("(<= %s %s)", name, hi))
+				guards = append(guards, fmt.Sprintf("(<= %s %s)", lo, bound.T), fmt.Sprintf("(<= %s %s)", bound.T, hi))
 			}
 		}
 	}
@@ -712,6 +727,90 @@ func (g *FuncGen) trQuant(env *Env, q *EQuant) Val {
 		body = and(append(guards, body)...)
 	}
 	return Val{T: fmt.Sprintf("(%s (%s) %s)", kw, strings.Join(binders, " "), body), S: SBool, GT: types.Typ[types.Bool]}
+}
+
+// findIndexBase: the slice expression X of the first X[v] in e (outside old(...)) that mentions no bound variable.
+func findIndexBase(e Expr, v string, bound map[string]bool) Expr {
+	var mentions func(e Expr) bool
+	mentions = func(e Expr) bool {
+		switch x := e.(type) {
+		case *EIdent:
+			return bound[x.Name]
+		case *EUnary:
+			return mentions(x.X)
+		case *EBinary:
+			return mentions(x.X) || mentions(x.Y)
+		case *ECall:
+			for _, a := range x.Args {
+				if mentions(a) {
+					return true
+				}
+			}
+			if k := strings.Index(x.Fun, "."); k > 0 && bound[x.Fun[:k]] {
+				return true
+			}
+		case *EField:
+			return mentions(x.X)
+		case *EIndex:
+			return mentions(x.X) || mentions(x.I)
+		case *ESlice:
+			return mentions(x.X) || (x.Lo != nil && mentions(x.Lo)) || (x.Hi != nil && mentions(x.Hi))
+		case *EOld:
+			return mentions(x.X)
+		case *ECond:
+			return mentions(x.C) || mentions(x.A) || mentions(x.B)
+		case *EQuant:
+			return true // conservative
+		case *EDeref:
+			return mentions(x.X)
+		}
+		return false
+	}
+	var find func(e Expr) Expr
+	find = func(e Expr) Expr {
+		switch x := e.(type) {
+		case *EUnary:
+			return find(x.X)
+		case *EBinary:
+			if r := find(x.X); r != nil {
+				return r
+			}
+			return find(x.Y)
+		case *ECall:
+			for _, a := range x.Args {
+				if r := find(a); r != nil {
+					return r
+				}
+			}
+		case *EField:
+			return find(x.X)
+		case *EIndex:
+			if id, ok := x.I.(*EIdent); ok && id.Name == v && !mentions(x.X) {
+				return x.X
+			}
+			if r := find(x.X); r != nil {
+				return r
+			}
+			return find(x.I)
+		case *ECond:
+			for _, y := range []Expr{x.C, x.A, x.B} {
+				if r := find(y); r != nil {
+					return r
+				}
+			}
+		case *EDeref:
+			return find(x.X)
+		case *EQuant:
+			for _, b := range x.Vars {
+				if b.Name == v {
+					return nil
+				}
+			}
+			return find(x.Body)
+		}
+		return nil
+	}
+	return find(e)
 }
 
 func (g *FuncGen) constInt(env *Env, e Expr) int64 {
